@@ -1893,6 +1893,9 @@ struct ReportDataResponder<'a, 'b, 'c, const NE: usize, C> {
     sent: bool,
     /// What is left of the space reserved for the tail of the message being built
     reserve_left: usize,
+    /// The position in the TX buffer right after the preamble of the message being built
+    /// (i.e. nothing but the preamble has been written if the tail is still there)
+    items_start: usize,
 }
 
 impl<'a, 'b, 'c, const NE: usize, C> ReportDataResponder<'a, 'b, 'c, NE, C>
@@ -1919,6 +1922,7 @@ where
             events,
             sent: false,
             reserve_left: 0,
+            items_start: 0,
         }
     }
 
@@ -2009,6 +2013,7 @@ where
 
         if self.req.attr_requests()?.is_some() {
             wb.start_array(&TLVTag::Context(ReportDataRespTag::AttributeReports as u8))?;
+            self.items_start = wb.get_tail();
 
             for item in expand_read(&metadata, self.req, &accessor, &mut filter)? {
                 let item = item?;
@@ -2034,6 +2039,21 @@ where
                                 } else {
                                     return Ok(false);
                                 }
+                            } else if wb.get_tail() == self.items_start {
+                                // The item does not fit even in an otherwise empty message,
+                                // so re-sending would never end: answer it with a failure status
+                                warn!("Attribute value larger than a message, reporting a failure status for it");
+
+                                let status = match &item {
+                                    Ok(attr) => attr.status(IMStatusCode::ResourceExhausted),
+                                    Err(status) => Some(status.clone()),
+                                };
+
+                                if let Some(status) = status {
+                                    AttrResp::Status(status).to_tlv(&TLVTag::Anonymous, &mut *wb)?;
+                                }
+
+                                break;
                             } else {
                                 debug!("<<< No TX space, chunking >>>");
                                 if !self
@@ -2070,6 +2090,11 @@ where
             self.frame(wb, |wb| {
                 wb.start_array(&TLVTag::Context(ReportDataRespTag::EventReports as _))
             })?;
+
+            if self.req.attr_requests()?.is_none() {
+                // Nothing but the preamble in the message so far
+                self.items_start = wb.get_tail();
+            }
 
             // Validate concrete event paths against node metadata
             // and emit EventStatusIB for non-wildcard paths that don't match
@@ -2115,9 +2140,13 @@ where
             let event_filters = self.req.event_filters()?;
 
             loop {
+                let items_start = self.items_start;
+
                 let finished = self.events.fetch(|events| {
                     metadata.access(|node| {
                         for event in events {
+                            let event_number = event.event_number;
+
                             let result = self.event_reader.process_read(
                                 event,
                                 &event_reqs,
@@ -2129,6 +2158,17 @@ where
 
                             if let Err(e) = &result {
                                 if e.code() == ErrorCode::NoSpace {
+                                    if wb.get_tail() == items_start {
+                                        // The event does not fit even in an otherwise empty message,
+                                        // so re-sending would never end: it cannot be delivered, skip it
+                                        warn!(
+                                            "Event {} larger than a message, skipping it",
+                                            event_number
+                                        );
+                                        self.event_reader.skip(event_number);
+                                        continue;
+                                    }
+
                                     return Ok::<_, Error>(false);
                                 }
                             }
@@ -2205,6 +2245,22 @@ where
                     list_index = Some(new_list_index);
                     attr.list_index = Some(Nullable::some(new_list_index));
                 }
+                Err(err)
+                    if err.code() == ErrorCode::NoSpace && wb.get_tail() == self.items_start =>
+                {
+                    // The array item does not fit even in an otherwise empty message,
+                    // so re-sending would never end: answer the attribute with a failure status
+                    warn!("Array item larger than a message, reporting a failure status for the attribute");
+
+                    attr.list_chunked = false;
+                    attr.list_index = None;
+
+                    if let Some(status) = attr.status(IMStatusCode::ResourceExhausted) {
+                        AttrResp::Status(status).to_tlv(&TLVTag::Anonymous, &mut *wb)?;
+                    }
+
+                    break;
+                }
                 Err(err) if err.code() == ErrorCode::NoSpace => {
                     debug!("<<< No TX space, chunking >>>");
                     if !self
@@ -2248,12 +2304,14 @@ where
                 let cont = self.recv_status_success().await?;
                 self.start_reply(wb)?;
                 wb.start_array(&TLVTag::Context(ReportDataRespTag::AttributeReports as u8))?;
+                self.items_start = wb.get_tail();
                 cont
             }
             ReportDataChunkState::ChunkingEvents => {
                 let cont = self.recv_status_success().await?;
                 self.start_reply(wb)?;
                 wb.start_array(&TLVTag::Context(ReportDataRespTag::EventReports as u8))?;
+                self.items_start = wb.get_tail();
                 cont
             }
             ReportDataChunkState::Done => {
